@@ -152,6 +152,7 @@ func emitRaw(out *vc.Out, data []byte, sizes []int, tailErr bool, kind string) {
 		c = "rawbig " + strconv.Itoa(len(data))
 	}
 	out.Case(c, o, key)
+	abortIfStuck(out)
 }
 
 func gz(b []byte) []byte {
@@ -194,6 +195,18 @@ func genRaw(out *vc.Out, r *vc.Rand, thorough bool) {
 		emitRaw(out, frame(t, []byte("{}")), nil, false, "all-types")
 		emitRaw(out, []byte{byte(t)}, nil, r.Bool(), "all-types-bare")
 		emitRaw(out, frame(t, gz([]byte(`{"CommandType":10}`))), []int{1, 2, 3}, false, "all-types-gz")
+	}
+	// (1b) every type byte with tiny bodies — 0..5 bytes over an alphabet with a UTF-8 BOM and JSON
+	// punctuation — plain and, when the compressed flag is set, also as a valid gzip member
+	tiny := [][]byte{{}, {0xEF}, {0xEF, 0xBB}, {0xEF, 0xBB, 0xBF}, {'{'}, {'{', '}'}, {0}, []byte("null"),
+		{0xEF, 0xBB, 0xBF, '{', '}'}, {'"'}, {'['}, {'1'}, {0xFF, 0xFE}}
+	for t := 0; t < 256; t++ {
+		for _, b := range tiny {
+			emitRaw(out, append(frame(t, b), 0x03), nil, false, "tiny-body")
+			if t&0x40 != 0 {
+				emitRaw(out, append(frame(t, gz(b)), 0x03), nil, false, "tiny-body-gz")
+			}
+		}
 	}
 	// (2) adversarial length fields
 	for _, n := range []uint32{0, 1, 0xFFFFFFFF, 0x80000000, maxBody, maxBody + 1, maxBody - 1, 0x01000000, 0x00FFFFFF} {
